@@ -15,10 +15,17 @@ class C17(LoopCheck):
     props = {"C17"}
     flows = ("plain", "resume")
     adaptive_N3 = ()
-    required_labels = ["c17/prior_attached", "c17/prior_of_same_points", "c17/count", "c17/importance_count", "c17/convert_weights"]
+    required_labels = ["c17/prior_attached", "c17/prior_of_same_points", "c17/count", "c17/count@resumed", "c17/count@resumed_after_fault", "c17/importance_count", "c17/convert_weights", "c17/mcmc_count"]
 
     def configs(self, tier):
         out = super().configs(tier)
+        # a fault at every likelihood call of a run that checkpoints to a file, then a
+        # resume from that file in a fresh sampler: what the resumed sampler reports
+        for c in list(out):
+            if c["flow"] == "resume" and c["schedule"] == "fixed2" and not c["n_final"] and c["sampler"] == "MiniPCNSMC":
+                c2 = dict(c)
+                c2.update(routes=["file"], name=c["name"] + "-crashpoints")
+                out.append(c2)
         for n in ([2] if tier == "quick" else [2, 3]):
             out.append({"name": f"importance-N{n}", "kind": "importance", "flow": "fn", "N": n, "d": 2, "D": 1})
             out.append({"name": f"convert-N{n}", "kind": "convert", "flow": "fn", "N": n, "d": 2, "D": 1})
